@@ -372,7 +372,10 @@ func subtrees(c cond, out *[]cond) {
 // minimalCond looks for the smallest sub-condition that, as the only Allow
 // rule of the same account, is already evaluated differently from the
 // reference in the same cell; it names the kind of its root.
-func (h *harness) minimalCond(cfg *sconfig, chain []sym, c *cell) (string, cond) {
+func (h *harness) minimalCond(cfg *sconfig, chain []sym, c *cell, clause string) (string, cond) {
+	if clause != "rule-allow" && clause != "rule-deny" && clause != "no-match" {
+		return "", nil // the reference never reached the rules
+	}
 	var s *transaction.Signer
 	for i := range cfg.signers {
 		if cfg.signers[i].Account == c.hash {
@@ -387,7 +390,10 @@ func (h *harness) minimalCond(cfg *sconfig, chain []sym, c *cell) (string, cond)
 	for _, r := range s.Rules {
 		subtrees(r.Condition, &subs)
 	}
-	for _, sc := range subs {
+	// Control: constant conditions must be evaluated right in this very cell,
+	// otherwise the cause is outside the condition matcher.
+	subs = append([]cond{cBool(true), cBool(false)}, subs...)
+	for si, sc := range subs {
 		one := []transaction.Signer{{Account: c.hash, Scopes: transaction.Rules, Rules: []transaction.WitnessRule{{Action: transaction.WitnessAllow, Condition: sc}}},
 			{Account: h.w.decoyG, Scopes: transaction.Global}}
 		cells, frames, _, fault := h.exec(one, cfg.targets, chain)
@@ -398,6 +404,9 @@ func (h *harness) minimalCond(cfg *sconfig, chain []sym, c *cell) (string, cond)
 			x := &cells[i]
 			if x.pos == c.pos && x.phase == c.phase && x.target == c.target {
 				if want, _ := h.want(one, frames, x); want != x.got {
+					if si < 2 {
+						return "", nil
+					}
 					return condKind(sc), sc
 				}
 			}
@@ -421,7 +430,7 @@ func (h *harness) report(cfg *sconfig, chain []sym, ci int, caseID string, frame
 		h.run.Violation(v.(string), caseID, "", nil) // counted under the signature already witnessed
 		return
 	}
-	minKind, minCond := h.minimalCond(cfg, chain, c)
+	minKind, minCond := h.minimalCond(cfg, chain, c, clause)
 	if minKind != "" {
 		sig = "cell:condition=" + minKind // one mis-evaluated condition kind = one signature, whatever the verdict
 	}
@@ -499,7 +508,8 @@ func TestCheck(t *testing.T) {
 		"and condition tree shape [root kind and depth only for the sampled deep part], position of the signer in the list) x "+
 		"evaluation context (current frame, calling frame, entry relation) x target class x deciding clause x verdict; "+
 		"non-trivial = the target is a signer whose scopes were evaluated or the calling contract itself (cells of accounts "+
-		"that did not sign are counted as evaluations only)")
+		"that did not sign are counted as evaluations only). Part matcher: one case = one (condition tree, stub context) "+
+		"evaluation of WitnessCondition.Match; distinct = root kind x depth x context x verdict")
 	defer run.Finish()
 	run.Assume("the reference evaluator (ref_test.go, written from the protocol text) is right; it reads only data fields of neo-go's Signer/condition types")
 	run.Assume("frames are known by construction: the harness builds every script, Hash160 and the contract hash/manifest group deployment are trusted")
@@ -572,7 +582,11 @@ func TestCheck(t *testing.T) {
 	jobs = append(jobs, job{gen: func(i int) sconfig { return w.deepConfig(i, atoms) }, n: nDeep, chains: allIdx, name: "deep"})
 	jobs = append(jobs, job{gen: func(i int) sconfig { return w.multiConfig(i, validScopes, d1, d2) }, n: nMulti, chains: allIdx, name: "multi"})
 
-	if p := os.Getenv("VERIF_PART"); p != "" && p != "all" {
+	part := os.Getenv("VERIF_PART")
+	if part == "" || part == "all" || part == "matcher" {
+		h.runMatcher(d2)
+	}
+	if p := part; p != "" && p != "all" {
 		var keep []job
 		for _, j := range jobs {
 			if j.name == p {
@@ -726,8 +740,10 @@ func TestCheck(t *testing.T) {
 		"rule2: {Allow,Deny}^2 x {a, Not a}^2; rule2x (thorough): {Allow,Deny}^2 x depth<=2 x {a, Not a}; zero-hash: 5 conditions over the zero hash x {Allow,Deny}; "+
 		"each x every listed chain (basic = all 39 sequences of 1..3 probes incl. re-entrancy; extended = all valid sequences of 1..3 symbols containing a dynamic script or the native GAS payment) "+
 		"x every position x {pre,post} x every target. Signer list layout alternates with the configuration index ([s,decoyG] / [decoyN,s,decoyG]) and is not a product dimension. "+
-		"Composite arity > 2, depth 3 and lists of 3 rules are sampled only (parts deep, multi)")
-	if complete && len(fullParts) > 0 && os.Getenv("VERIF_PART") == "" || os.Getenv("VERIF_PART") == "all" && complete {
+		"Composite arity > 2, depth 3 and lists of 3 rules are sampled only (parts deep, multi). "+
+		"matcher: WitnessCondition.Match with a stub context for every tree of depth<=3 with composite arity<=2 over the 16 atoms x every context "+
+		"(6 current frames x {no caller, 6 callers directly from the entry script, 6 callers deeper})")
+	if complete && (part == "" || part == "all") {
 		run.Exhaustive()
 	}
 	if tot["cells"] == 0 {
